@@ -5,7 +5,7 @@ from __future__ import annotations
 import ast
 
 from ..model import AnalysisError, src, norm_stmt
-from ..astutil import Canon, const_slice, strip_wrappers
+from ..astutil import Canon, const_slice, strip_wrappers, splice_self_calls, helper_closure
 
 META = {
     "explanation": "Syntax-directed dataflow over Pseudotrajectory.generate_pseudotrajectory / get_pt_as_universe and the writers in "
@@ -499,10 +499,18 @@ def run(ctx, repo, tier):
             ctx.inconclusive("PARITY", "C10.convention.assign", "construction of the grid rotations in the assignment not found", qa.where)
     # ---------------- writer: both molecules centred, wiring of PtWriter
     tw = repo.cls("molgri.io", "TwoMoleculeWriter")
-    cb = tw.methods.get("_center_both_molecules")
-    if cb is None:
-        raise AnalysisError("anchor vanished: TwoMoleculeWriter._center_both_molecules")
-    ctx.analysed(cb)
+    init_w = tw.methods.get("__init__")
+    if init_w is None:
+        raise AnalysisError("anchor vanished: TwoMoleculeWriter.__init__")
+    ctx.analysed(init_w)
+    for h_ in sorted(helper_closure(tw, ["__init__"]) - {"__init__"}):
+        if tw.find_method(h_) is not None:
+            ctx.analysed(tw.find_method(h_))
+    # the constructor with its private helpers spliced in: centring may live in a helper (today: _center_both_molecules) or in __init__ itself
+    class _View:
+        pass
+    cb = _View()
+    cb.node, cb.where = splice_self_calls(tw, init_w.node), init_w.where
     ccb = Canon(Canon.single_defs(cb.node.body))
     trs = [n for n in ast.walk(cb.node) if isinstance(n, ast.Call) and isinstance(n.func, ast.Attribute) and n.func.attr == "translate"]
     ctx.instance("PARITY")
@@ -526,9 +534,8 @@ def run(ctx, repo, tier):
                     "centred' is not established by the writer", cb.where, witness=str([src(t) for t in trs]))
     else:
         ctx.inconclusive("PARITY", "C10.writer.centre", "centring idiom not recognised", cb.where, witness=str([src(t) for t in trs]))
-    init_w = tw.methods.get("__init__")
-    ctx.check(init_w is not None and "_center_both_molecules" in src(init_w.node), "DOM", "C10.writer.centre_called", "centring happens at "
-              "construction of the writer", init_w.where if init_w else "", witness="_center_both_molecules is never called from __init__")
+    ctx.check(len(trs) >= 1, "DOM", "C10.writer.centre_called", "centring happens at construction of the writer", init_w.where,
+              witness="no translate call is reachable from TwoMoleculeWriter.__init__ through its private helpers")
     pw = repo.cls("molgri.io", "PtWriter")
     pinit = pw.methods.get("__init__")
     if pinit is not None and init is not None:
